@@ -385,53 +385,57 @@ Definition rv_to_aval (r : rval) : option aval :=
   | RGlob g => Some (AGlob g)
   end.
 
-(* ------------------------------------------------------------------ simple statements *)
+(* ------------------------------------------------------------------ simple statements
+   (the parts that only READ the state take the lookup function, so that they are monotone in it) *)
 (* `x = <allocating form>`: Some (the new object) ; None: not an allocating form *)
-Definition alloc_form (s : st) (e : expr) : option (rres tobj) :=
+Definition alloc_form (rh : positive -> rres rval) (e : expr) : rres (option tobj) :=
   match e with
   | ECall (EName g) args kw =>
-      match rho s g with
-      | ROk (RGlob gn) =>
+      dor vg <- rh g;
+      match vg with
+      | RGlob gn =>
           if String.eqb gn "Tensor" then
-            Some (dor _ <- aevals (rho s) args; dor _ <- aevalkw (rho s) kw;
-                  match kw_find "rank_ids" kw with
-                  | Some ie => match lit_ids ie with
-                               | Some ids => ROk (mkT ids Prog Prog)
-                               | None => RBad "rank_ids is not a literal list of strings" end
-                  | None => RBad "Tensor: rank_ids missing"
-                  end)
-          else None
-      | _ => None
+            dor _ <- aevals rh args; dor _ <- aevalkw rh kw;
+            match kw_find "rank_ids" kw with
+            | Some ie => match lit_ids ie with
+                         | Some ids => ROk (Some (mkT ids Prog Prog))
+                         | None => RBad "rank_ids is not a literal list of strings" end
+            | None => RBad "Tensor: rank_ids missing"
+            end
+          else ROk None
+      | _ => ROk None
       end
   | ECall (EAttr (EName y) m) args kw =>
-      match rho s y with
-      | ROk (RGlob gn) =>
+      dor vy <- rh y;
+      match vy with
+      | RGlob gn =>
           if String.eqb gn "Tensor" && String.eqb m "fromFiber" then
-            Some (dor _ <- aevals (rho s) args; dor kvs <- aevalkw (rho s) kw;
-                  match kw_find "rank_ids" kw, kw_find "fiber" kvs with
-                  | Some ie, Some (RP (PvFib p)) =>
-                      match lit_ids ie with
-                      | Some ids => ROk (mkT ids Prog p)
-                      | None => RBad "rank_ids is not a literal list of strings" end
-                  | _, _ => RBad "Tensor.fromFiber: rank_ids / fiber"
-                  end)
-          else None
-      | ROk (RTensor o) =>
+            dor _ <- aevals rh args; dor kvs <- aevalkw rh kw;
+            match kw_find "rank_ids" kw, kw_find "fiber" kvs with
+            | Some ie, Some (RP (PvFib p)) =>
+                match lit_ids ie with
+                | Some ids => ROk (Some (mkT ids Prog p))
+                | None => RBad "rank_ids is not a literal list of strings" end
+            | _, _ => RBad "Tensor.fromFiber: rank_ids / fiber"
+            end
+          else ROk None
+      | RTensor o =>
           if mem_str m alloc_methods then
-            Some (dor _ <- aevals (rho s) args; dor _ <- aevalkw (rho s) kw;
-                  dor ids' <- ids_after m kw (t_ids o); ROk (mkT ids' Prog Prog))
-          else None
-      | _ => None
+            dor _ <- aevals rh args; dor _ <- aevalkw rh kw;
+            dor ids' <- ids_after m kw (t_ids o); ROk (Some (mkT ids' Prog Prog))
+          else ROk None
+      | _ => ROk None
       end
-  | _ => None
+  | _ => ROk None
   end.
 
 Definition assign_name (s : st) (x : positive) (e : expr) : rres st :=
   match e with
   | EName y => match PM.find y (env s) with None => RUnbound y | Some (_, v) => ROk (bind x v s) end
   | _ =>
-      match alloc_form s e with
-      | Some r => dor o <- r; ROk (bind x (ATensor (next s)) (snd (alloc o s)))
+      dor r <- alloc_form (rho s) e;
+      match r with
+      | Some o => ROk (bind x (ATensor (next s)) (snd (alloc o s)))
       | None =>
           dor v <- aeval (rho s) e;
           match rv_to_aval v with
@@ -441,71 +445,77 @@ Definition assign_name (s : st) (x : positive) (e : expr) : rres st :=
       end
   end.
 
-Definition assign_sub (s : st) (a i e : expr) : rres st :=
-  dor va <- aeval (rho s) a; dor _ <- aeval (rho s) i; dor v <- aeval (rho s) e;
+Definition assign_sub_chk (rh : positive -> rres rval) (a i e : expr) : rres unit :=
+  dor va <- aeval rh a; dor _ <- aeval rh i; dor v <- aeval rh e;
   match va with
-  | RP PvOther => if rinert v then ROk s else RBad "a tensor / fiber / payload is stored in a container"
+  | RP PvOther => if rinert v then ROk tt else RBad "a tensor / fiber / payload is stored in a container"
   | _ => RBad "subscript assignment to something that is not an untracked container"
   end.
 
 Definition is_shl (op : binop) : bool := match op with BShl => true | _ => false end.
 
-Definition aug_stmt (s : st) (op : binop) (t : target) (e : expr) : rres st :=
-  dor v <- aeval (rho s) e;
+Definition aug_chk (rh : positive -> rres rval) (op : binop) (t : target) (e : expr) : rres unit :=
+  dor v <- aeval rh e;
   match t with
   | TName x =>
-      dor xv <- rho s x;
+      dor xv <- rh x;
       match xv with
       | RP (PvFib User) => RBad "`+=` / `<<=` updates a payload of a user-supplied tensor"
-      | RP (PvFib Prog) => ROk s
-      | RP PvOther => if is_shl op && negb (rinert v) then RBad "`<<=` copies a payload into a plain variable" else ROk s
+      | RP (PvFib Prog) => ROk tt
+      | RP PvOther => if is_shl op && negb (rinert v) then RBad "`<<=` copies a payload into a plain variable" else ROk tt
       | _ => RBad "augmented assignment to something that is neither a payload nor a number"
       end
   | TSub a i =>
-      dor va <- aeval (rho s) a; dor _ <- aeval (rho s) i;
+      dor va <- aeval rh a; dor _ <- aeval rh i;
       match va with
-      | RP PvOther => if is_shl op && negb (rinert v) then RBad "`<<=` copies a payload into a container" else ROk s
+      | RP PvOther => if is_shl op && negb (rinert v) then RBad "`<<=` copies a payload into a container" else ROk tt
       | _ => RBad "subscript update of something that is not an untracked container"
       end
   end.
 
-Definition expr_stmt (s : st) (e : expr) : rres st :=
-  let generic := dor _ <- aeval (rho s) e; ROk s in
+(* `Y.setRankIds(..)` with Y a variable, as a statement *)
+Definition setrank_syntax (e : expr) : option (positive * list expr * list (string * expr)) :=
   match e with
-  | ECall (EAttr (EName y) m) args kw =>
-      if String.eqb m "setRankIds" then
-        match PM.find y (env s) with
-        | Some (_, ATensor c) =>
-            match PM.find c (heap s) with
-            | Some o =>
-                dor _ <- aevals (rho s) args; dor _ <- aevalkw (rho s) kw;
-                match kw_find "rank_ids" kw with
-                | Some ie =>
-                    match lit_ids ie with
-                    | Some ids =>
-                        match t_oprov o with
-                        | User => RBad "setRankIds renames a user-supplied tensor in place"
-                        | Prog => if Nat.eqb (length ids) (length (t_ids o))
-                                  then ROk (hset c (mkT ids Prog (t_dprov o)) s)
-                                  else RBad "setRankIds: wrong number of ranks"
-                        end
-                    | None => RBad "rank_ids is not a literal list of strings"
-                    end
-                | None => RBad "setRankIds: rank_ids missing"
-                end
-            | None => RBad "dangling tensor reference"
-            end
-        | _ => generic
-        end
-      else generic
-  | _ => generic
+  | ECall (EAttr (EName y) m) args kw => if String.eqb m "setRankIds" then Some (y, args, kw) else None
+  | _ => None
+  end.
+
+Definition setrank_ids (rh : positive -> rres rval) (args : list expr) (kw : list (string * expr)) : rres (list string) :=
+  dor _ <- aevals rh args; dor _ <- aevalkw rh kw;
+  match kw_find "rank_ids" kw with
+  | Some ie => match lit_ids ie with
+               | Some ids => ROk ids
+               | None => RBad "rank_ids is not a literal list of strings" end
+  | None => RBad "setRankIds: rank_ids missing"
+  end.
+
+Definition expr_stmt (s : st) (e : expr) : rres st :=
+  match setrank_syntax e with
+  | Some (y, args, kw) =>
+      dor ids <- setrank_ids (rho s) args kw;
+      match PM.find y (env s) with
+      | None => RUnbound y
+      | Some (_, ATensor c) =>
+          match PM.find c (heap s) with
+          | Some o =>
+              match t_oprov o with
+              | User => RBad "setRankIds renames a user-supplied tensor in place"
+              | Prog => if Nat.eqb (length ids) (length (t_ids o))
+                        then ROk (hset c (mkT ids Prog (t_dprov o)) s)
+                        else RBad "setRankIds: wrong number of ranks"
+              end
+          | None => RBad "dangling tensor reference"
+          end
+      | Some _ => RBad "setRankIds on something that is not (known to be) a tensor"
+      end
+  | None => dor _ <- aeval (rho s) e; ROk s
   end.
 
 Definition step (s : st) (c : stmt) : rres st :=
   match c with
   | SAssign (TName x) e => assign_name s x e
-  | SAssign (TSub a i) e => assign_sub s a i e
-  | SAug op t e => aug_stmt s op t e
+  | SAssign (TSub a i) e => dor _ <- assign_sub_chk (rho s) a i e; ROk s
+  | SAug op t e => dor _ <- aug_chk (rho s) op t e; ROk s
   | SExpr e => expr_stmt s e
   | _ => RBad "not a simple statement"
   end.
@@ -524,34 +534,35 @@ Definition iter_elem (v : rval) : rres pval :=
   end.
 Definition for_elem (s : st) (e : expr) : rres pval := dor v <- aeval (rho s) e; iter_elem v.
 
-(* a missing union side is a structural default: a tuple pattern against one fiber-like value
-   binds every name of the pattern to it (Interp.bind_pat on VZero) *)
-Fixpoint bind_pat (p : pat) (v : pval) (s : st) {struct p} : rres st :=
+(* the names a loop pattern binds against an element, left to right.  A missing union side is a
+   structural default: a tuple pattern against one fiber-like value binds every name of the
+   pattern to it (Interp.bind_pat on VZero) *)
+Fixpoint pat_binds (p : pat) (v : pval) {struct p} : rres (list (positive * pval)) :=
   match p with
-  | PName x => ROk (bind x (AP v) s)
+  | PName x => ROk [(x, v)]
   | PTup ps =>
       match v with
       | PvTup vs =>
-          (fix go (ps : list pat) (vs : list pval) (s : st) : rres st :=
+          (fix go (ps : list pat) (vs : list pval) : rres (list (positive * pval)) :=
              match ps, vs with
-             | [], [] => ROk s
-             | p :: ps', v :: vs' => dor s' <- bind_pat p v s; go ps' vs' s'
+             | [], [] => ROk []
+             | p :: ps', v :: vs' => dor b <- pat_binds p v; dor bs <- go ps' vs'; ROk (b ++ bs)%list
              | _, _ => RBad "cannot unpack: arity mismatch"
-             end) ps vs s
-      | PvFib pr =>
-          (fix go (ps : list pat) (s : st) : rres st :=
+             end) ps vs
+      | _ =>
+          (fix go (ps : list pat) : rres (list (positive * pval)) :=
              match ps with
-             | [] => ROk s
-             | p :: ps' => dor s' <- bind_pat p (PvFib pr) s; go ps' s'
-             end) ps s
-      | PvOther =>
-          (fix go (ps : list pat) (s : st) : rres st :=
-             match ps with
-             | [] => ROk s
-             | p :: ps' => dor s' <- bind_pat p PvOther s; go ps' s'
-             end) ps s
+             | [] => ROk []
+             | p :: ps' => dor b <- pat_binds p v; dor bs <- go ps'; ROk (b ++ bs)%list
+             end) ps
       end
   end.
+
+Definition bind_all (bs : list (positive * pval)) (s : st) : st :=
+  fold_left (fun s b => bind (fst b) (AP (snd b)) s) bs s.
+
+Definition bind_pat (p : pat) (v : pval) (s : st) : rres st :=
+  dor bs <- pat_binds p v; ROk (bind_all bs s).
 
 (* ------------------------------------------------------------------ the all-paths semantics *)
 Inductive outcome := OFine (s : st) | OBad (why : string).
